@@ -14,7 +14,8 @@ import ast
 from typing import Dict, List, Optional, Set
 
 from ..index import AnalysisError, call_name, norm, norm1
-from .common import calls, enclosing, enclosing_all, fctx, in_body, is_name, method_calls, stmts, store_targets
+from .common import (Frag, calls, const_of, enclosing, enclosing_all, eq_const, fctx, if_chain, imag_unit_sign, in_body, is_name, kwarg,
+                     method_calls, pmatch, product_factors, stmts, store_targets)
 
 LEVEL = "other"
 EXPLANATION = (
@@ -31,14 +32,12 @@ DKR = "wannierberri/data_K/data_K_R.py"
 
 
 def _sign_of_2pi_i(e: ast.AST) -> Optional[int]:
-    """+1 / −1 if the expression contains np.exp(±2j·π·…) ; None if no such literal."""
+    """+1 / −1 if the expression contains np.exp(±2j·π·…) ; None if no such call."""
     for c in ast.walk(e):
         if isinstance(c, ast.Call) and call_name(c) in ("np.exp", "numpy.exp") and c.args:
-            t = norm(c.args[0]).replace(" ", "")
-            if t.startswith("-2j*np.pi") or t.startswith("-(2j") or t.startswith("-2.0j*np.pi"):
-                return -1
-            if t.startswith("2j*np.pi") or t.startswith("2.0j*np.pi"):
-                return +1
+            sg = imag_unit_sign(c.args[0])
+            if sg is not None:
+                return sg
     return None
 
 
@@ -53,16 +52,25 @@ def run(ctx) -> None:
     if callf is None or trf is None or ini is None:
         raise AnalysisError("FFT_R_to_k methods vanished")
     cfg, du, pm = fctx(callf)
+    C = Frag(callf)
 
     # ---------------------------------------------------------------- R02.1
     r1 = ctx.rule("R02.1", "R→k back ends agree in sign and net normalisation; Hermitisation after every branch", min_instances=4)
     signs: Dict[str, int] = {}
-    tt = norm(trf.node).replace(" ", "")
     r1.instance(f"{trf.short}: numpy branch")
-    signs["numpy"] = +1 if "np.fft.ifftn(AAA_K,axes=(0,1,2))" in tt else (-1 if "np.fft.fftn(" in tt else 0)
+    npc = [c for c in ast.walk(trf.node) if isinstance(c, ast.Call) and call_name(c) in ("np.fft.ifftn", "np.fft.fftn", "numpy.fft.ifftn", "numpy.fft.fftn")]
+    r1.expect(len(npc) >= 1, "numpy transform located", trf, trf.node, "FFT_R_to_k.transform: no np.fft.(i)fftn call found")
+    signs["numpy"] = 0 if not npc else (+1 if all(call_name(c).endswith("ifftn") for c in npc) else -1)
+    for c in npc:
+        r1.check(const_of(kwarg(c, "axes", 2)) == (0, 1, 2), "numpy transform runs over the three grid axes", trf, c,
+                 f"`{norm1(c)}` does not transform exactly the three k-grid axes (0, 1, 2)")
     r1.instance(f"{ini.short}: fftw plan")
-    ti = norm(ini.node).replace(" ", "")
-    signs["fftw"] = +1 if "direction='FFTW_BACKWARD'" in ti else (-1 if "direction='FFTW_FORWARD'" in ti else 0)
+    pl = [c for c in ast.walk(ini.node) if isinstance(c, ast.Call) and call_name(c) == "pyfftw.FFTW"]
+    r1.expect(len(pl) == 1, "fftw plan located", ini, ini.node, "FFT_R_to_k.__init__: pyfftw.FFTW(…) plan not found")
+    dirv = const_of(kwarg(pl[0], "direction"), "FFTW_FORWARD") if pl else None
+    signs["fftw"] = +1 if dirv == "FFTW_BACKWARD" else (-1 if dirv == "FFTW_FORWARD" else 0)
+    if pl:
+        r1.check(const_of(kwarg(pl[0], "axes")) == (0, 1, 2), "fftw plan runs over the three grid axes", ini, pl[0], "the fftw plan does not transform axes (0, 1, 2)")
     for prop, key in (("exponent", "slow"), ("exponent_k_list", "slow_path")):
         f = cls.methods.get(prop)
         if f is None:
@@ -73,66 +81,91 @@ def run(ctx) -> None:
              f"the Fourier back ends disagree on the sign of the exponent {signs}: H(k) from one back end is H(−k) of another",
              stmt=f"signs {signs}")
     # normalisation: fft branch multiplies by prod(NKFFT) (undoing the 1/N of the inverse transforms); explicit sums have no factor
-    tc = norm(callf.node).replace(" ", "")
-    arms = [s for s in stmts(callf.node) if isinstance(s, ast.If) and "self.lib==" in norm(s.test).replace(" ", "")]
+    arms = [s_ for s_ in stmts(callf.node) if isinstance(s_, ast.If) and eq_const(s_.test, "self.lib") is not ...]
     if not arms:
         raise AnalysisError("FFT_R_to_k.__call__: branch on self.lib not found")
     top = arms[0]
-    # walk the if/elif chain
-    chain = []
-    cur = top
-    while True:
-        chain.append((norm(cur.test), cur.body))
-        if len(cur.orelse) == 1 and isinstance(cur.orelse[0], ast.If):
-            cur = cur.orelse[0]
-        else:
-            chain.append(("else", cur.orelse))
-            break
-    names = [c[0].replace(" ", "") for c in chain]
-    r1.check(names == ["self.lib=='slow'", "self.lib=='slow_path'", "else"], f"branches: {names}", callf, top,
-             f"FFT_R_to_k.__call__ dispatches on {names}", stmt=f"dispatch {names}")
+    chain = if_chain(top)
+    names = [eq_const(t_, "self.lib") if t_ is not None else "else" for t_, _ in chain]
+    r1.check(sorted(map(str, names[:-1])) == ["slow", "slow_path"] and names[-1] == "else" and bool(chain[-1][1]), f"branches: {names}", callf, top,
+             f"FFT_R_to_k.__call__ dispatches on {names} (expected the explicit sums 'slow', 'slow_path' and the library branch)", stmt=f"dispatch {names}")
     fft_body = chain[-1][1]
-    mults = [s for s in fft_body if isinstance(s, ast.AugAssign) and isinstance(s.op, ast.Mult) and norm(s.target) == "AAA_K"]
-    r1.check(len(mults) == 1 and norm(mults[0].value).replace(" ", "") == "np.prod(self.NKFFT)" and
-             any(isinstance(s, ast.Expr) and "self.transform(AAA_K)" in norm(s) for s in fft_body),
-             "library branch: inverse transform × prod(NKFFT) = plain sum over R (net factor 1)", callf, mults[0] if mults else top,
-             "the FFT branch does not multiply the inverse transform by prod(NKFFT): it differs from the explicit sums by a factor N")
-    for cond, body in chain[:2]:
-        bt = " ".join(norm(s) for s in body).replace(" ", "")
-        r1.check("np.prod(self.NKFFT)" not in bt.replace("np.prod([self.exponent", "") and "/len(" not in bt,
-                 f"explicit-sum branch `{cond}` carries no normalisation factor", callf, body[0],
-                 f"the explicit branch `{cond}` applies a normalisation factor the FFT branch does not have")
-    herm = [s for s in stmts(callf.node) if isinstance(s, ast.If) and norm(s.test) == "hermitian"]
-    okh = len(herm) == 1 and herm[0] in callf.node.body and callf.node.body.index(herm[0]) > callf.node.body.index(top) \
-        and "0.5*(AAA_K+AAA_K.swapaxes(*self.axes_hermitean).conj())" in norm(herm[0]).replace(" ", "")
-    r1.check(okh, "Hermitisation follows the branch join (applies to every back end)", callf, herm[0] if herm else top,
-             "the Hermitian symmetrisation is not applied after all back-end branches: some back ends return non-Hermitian H(k)")
-    r1.check("self.axes_hermitean=(1,2)" in ti and "self.axes_hermitean=(3,4)" in ti, "Hermitian axes: (1,2) for k-lists, (3,4) on the FFT box", ini, ini.node,
-             "the axes swapped by the Hermitisation do not match the array layout of the back end", stmt="axes_hermitean")
-    r1.check("self.lib='slow_path'" in ti.replace('"', "'") and "ifk_listisnotNone:" in ti, "an explicit k-list always selects the k-list back end", ini, ini.node,
-             "a k-list no longer forces the explicit k-list transform", stmt="k_list → slow_path")
+    FB = ast.Module(body=fft_body, type_ignores=[])
+    box_def = [s_ for s_ in fft_body if isinstance(s_, ast.Assign) and isinstance(s_.targets[0], ast.Name) and pmatch(s_.value, "np.zeros(self.NKFFT + ANY, dtype=complex)")]
+    box = box_def[0].targets[0].id if len(box_def) == 1 else None
+    r1.expect(box is not None, "FFT box located", callf, top, "FFT_R_to_k.__call__: `box = np.zeros(self.NKFFT + …, dtype=complex)` not found in the library branch")
+    if box is not None:
+        norm_forms = (f"{box} *= np.prod(self.NKFFT)", f"{box} = {box} * np.prod(self.NKFFT)", f"{box} = np.prod(self.NKFFT) * {box}")
+        mult = [s_ for s_ in fft_body if any(pmatch(s_, p_) and pmatch(s_, p_)[0][0] is s_ for p_ in norm_forms)]
+        trc = [s_ for s_ in fft_body if pmatch(s_, f"self.transform({box})") or pmatch(s_, f"{box} = self.transform({box})")]
+        scal = [s_ for s_ in fft_body if isinstance(s_, ast.AugAssign) and norm(s_.target) == box and isinstance(s_.op, (ast.Mult, ast.Div))]
+        r1.check(len(mult) == 1 and len(trc) == 1 and len(scal) <= 1,
+                 "library branch: inverse transform × prod(NKFFT) = plain sum over R (net factor 1)", callf, mult[0] if mult else (trc[0] if trc else top),
+                 "the FFT branch does not multiply the inverse transform by prod(NKFFT) exactly once: it differs from the explicit sums by a factor N")
+    for t_, body in chain[:2]:
+        B = ast.Module(body=body, type_ignores=[])
+        bad = pmatch(B, "np.prod(self.NKFFT)") or [n for n in ast.walk(B) if isinstance(n, ast.BinOp) and isinstance(n.op, ast.Div)
+                                                    and any(call_name(c) in ("len", "np.prod") for c in ast.walk(n.right) if isinstance(c, ast.Call))]
+        r1.check(not bad, f"explicit-sum branch `{norm1(t_)}` carries no normalisation factor", callf, body[0],
+                 f"the explicit branch `{norm1(t_)}` applies a normalisation factor the FFT branch does not have")
+    hp = callf.params[2] if len(callf.params) > 2 else "hermitian"
+    herm = [s_ for s_ in stmts(callf.node) if isinstance(s_, ast.If) and norm(s_.test) == hp]
+    res_names = {norm(s_.targets[0]) for _, body in chain for s_ in body if isinstance(s_, ast.Assign) and isinstance(s_.targets[0], ast.Name)
+                 and body and s_ in body}
+    hform = None
+    if len(herm) == 1:
+        for nm in res_names:
+            for p_ in (f"{nm} = 0.5 * ({nm} + {nm}.swapaxes(*self.axes_hermitean).conj())", f"{nm} = ({nm} + {nm}.swapaxes(*self.axes_hermitean).conj()) / 2",
+                       f"{nm} = 0.5 * ({nm} + {nm}.swapaxes(*self.axes_hermitean).conjugate())"):
+                if any(pmatch(x, p_) and pmatch(x, p_)[0][0] is x for x in herm[0].body):
+                    hform = nm
+    okh = len(herm) == 1 and herm[0] in callf.node.body and callf.node.body.index(herm[0]) > callf.node.body.index(top) and hform is not None \
+        if top in callf.node.body else False
+    r1.check(okh, "Hermitisation ½(A + A†) follows the branch join (applies to every back end)", callf, herm[0] if herm else top,
+             "the Hermitian symmetrisation ½(A + A†) is not applied after all back-end branches: some back ends return non-Hermitian H(k)")
+    ax = {}
+    kl_if = [s_ for s_ in ini.node.body if isinstance(s_, ast.If) and norm(s_.test) in ("k_list is not None", "k_list is None")]
+    r1.expect(len(kl_if) == 1, "k_list branch of the constructor located", ini, ini.node, "FFT_R_to_k.__init__: `if k_list is not None:` not found")
+    if len(kl_if) == 1:
+        kb, gb = (kl_if[0].body, kl_if[0].orelse) if norm(kl_if[0].test) == "k_list is not None" else (kl_if[0].orelse, kl_if[0].body)
+        def stores(body, attr):
+            return [const_of(s_.value) for s_ in body if isinstance(s_, ast.Assign) and norm(s_.targets[0]) == f"self.{attr}"]
+        r1.check(stores(kb, "axes_hermitean") == [(1, 2)] and stores(gb, "axes_hermitean") == [(3, 4)],
+                 "Hermitian axes: (1,2) for k-lists, (3,4) on the FFT box", ini, kl_if[0],
+                 f"the axes swapped by the Hermitisation do not match the array layout of the back end (k-list: {stores(kb, 'axes_hermitean')}, box: "
+                 f"{stores(gb, 'axes_hermitean')})", stmt="axes_hermitean")
+        r1.check(stores(kb, "lib") == ["slow_path"] and not stores(gb, "lib"), "an explicit k-list always selects the k-list back end", ini, kl_if[0],
+                 "a k-list no longer forces the explicit k-list transform", stmt="k_list → slow_path")
+        late = [s_ for s_ in ini.node.body[ini.node.body.index(kl_if[0]) + 1:] for x in ast.walk(s_) if isinstance(x, ast.Assign) and norm(x.targets[0]) == "self.lib"]
+        r1.check(not late, "…and nothing re-assigns self.lib afterwards", ini, late[0] if late else kl_if[0], "self.lib is re-assigned after the k-list branch selected 'slow_path'")
 
     # ---------------------------------------------------------------- R02.2
     r2 = ctx.rule("R02.2", "R-blocks wrapped onto the FFT box are accumulated", min_instances=1)
-    stores = []
-    for s in ast.walk(callf.node):
-        if isinstance(s, (ast.Assign, ast.AugAssign)):
-            tg = s.targets[0] if isinstance(s, ast.Assign) else s.target
-            if isinstance(tg, ast.Subscript) and norm(tg.value) == "AAA_K" and ("irvec" in norm(tg.slice) or "iRvec" in norm(tg.slice)):
-                stores.append(s)
-    if not stores:
-        raise AnalysisError("FFT_R_to_k.__call__: placement of AAA_R on the FFT box not found")
-    r2.check("self.iRvec=self.iRvec%self.NKFFT" in ti, "box index = R mod NKFFT (distinct R may share a box point)", ini, ini.node,
+    stores_ = []
+    for s_ in ast.walk(FB):
+        if isinstance(s_, (ast.Assign, ast.AugAssign)):
+            tg = s_.targets[0] if isinstance(s_, ast.Assign) else s_.target
+            if isinstance(tg, ast.Subscript) and box is not None and norm(tg.value) == box and not (isinstance(tg.slice, ast.Constant) and tg.slice.value is Ellipsis):
+                stores_.append(s_)
+    if not stores_:
+        r2.expect(False, "placement on the FFT box located", callf, top, "FFT_R_to_k.__call__: placement of the R-blocks on the FFT box not found")
+    gb_wrap = pmatch(ini.node, "self.iRvec = self.iRvec % self.NKFFT") or pmatch(ini.node, "self.iRvec = np.mod(self.iRvec, self.NKFFT)") or pmatch(ini.node, "self.iRvec %= self.NKFFT")
+    r2.check(bool(gb_wrap), "box index = R mod NKFFT (distinct R may share a box point)", ini, ini.node,
              "R-vectors are no longer wrapped modulo the FFT box", stmt="iRvec % NKFFT")
-    for s in stores:
-        r2.instance(f"{callf.short}: {norm1(s)}")
-        ok = isinstance(s, ast.AugAssign) and isinstance(s.op, ast.Add) and not isinstance(s.target.slice, ast.Tuple) or \
-            (isinstance(s, ast.AugAssign) and isinstance(s.op, ast.Add) and "tuple(" in norm(s.target.slice))
-        fancy = isinstance((s.targets[0] if isinstance(s, ast.Assign) else s.target).slice, ast.Tuple)
-        r2.check(isinstance(s, ast.AugAssign) and isinstance(s.op, ast.Add) and not fancy, "placement is `box[R mod N] += block` one R at a time", callf, s,
-                 f"`{norm1(s)}` {'assigns' if isinstance(s, ast.Assign) else 'fancy-index-accumulates'} R-blocks onto the FFT box: R-vectors "
+    for s_ in stores_:
+        r2.instance(f"{callf.short}: {norm1(s_)}")
+        tg = s_.targets[0] if isinstance(s_, ast.Assign) else s_.target
+        fancy = isinstance(tg.slice, ast.Tuple)
+        lp = enclosing(pm, s_, ast.For)
+        one_at_a_time = lp is not None and "self.iRvec" in norm(lp.iter) and not fancy
+        r2.check(isinstance(s_, ast.AugAssign) and isinstance(s_.op, ast.Add) and one_at_a_time, "placement is `box[R mod N] += block` one R at a time", callf, s_,
+                 f"`{norm1(s_)}` {'assigns' if isinstance(s_, ast.Assign) else 'fancy-index-accumulates'} R-blocks onto the FFT box: R-vectors "
                  f"that wrap onto the same box point (gapped R sets, FFT grids smaller than the R range) overwrite each other — numpy "
                  f"fancy-index stores do not accumulate duplicates — so fftw/numpy differ from the explicit sum")
+        if lp is not None and one_at_a_time:
+            ok_pair = bool(pmatch(lp, f"for IR, RV in enumerate(self.iRvec):\n    {box}[tuple(RV)] += AR[IR]", {"IR", "RV", "AR"})) or \
+                bool(pmatch(lp, f"for RV, BL in zip(self.iRvec, AR):\n    {box}[tuple(RV)] += BL", {"RV", "BL", "AR"}))
+            r2.check(ok_pair, "block ir goes to the box point of R-vector ir", callf, lp, f"`{norm1(s_)}`: the block and the box point do not belong to the same R-vector")
 
     # ---------------------------------------------------------------- R02.3
     r3 = ctx.rule("R02.3", "apply_expdK branches only on state that every configuration path re-assigns")
@@ -169,61 +202,112 @@ def run(ctx) -> None:
                  f"apply_expdK decides whether to apply the grid-shift phase from `{norm1(c)}`, but self.{stale[0] if stale else ''} is only "
                  f"assigned on one path of set_fft_R_to_k: after re-configuring the same Rvectors object from a shifted FFT grid to an "
                  f"explicit k-list the stale grid phases exp(2πi dK·R) are multiplied into the k-list transform")
-    ta = norm(apf.node).replace(" ", "")
-    r3.check("returnXX_R*self.expdK.reshape(shape)" in ta and "self.expdK=np.exp(2j*np.pi*self.iRvec.dot(self.dK))" in norm(setf.node).replace(" ", ""),
-             "grid mode: X(R) · exp(+2πi dK·R)", apf, apf.node, "the K-shift phase is no longer exp(+2πi dK·R) multiplied into X(R)", stmt="expdK")
+    xp = apf.params[1] if len(apf.params) > 1 else "XX_R"
+    ret = [s_ for s_ in stmts(apf.node) if isinstance(s_, ast.Return) and s_.value is not None and norm(s_.value) != xp]
+    okm = len(ret) == 1 and bool(pmatch(ret[0].value, f"{xp} * self.expdK.reshape(ANY)") or pmatch(ret[0].value, f"self.expdK.reshape(ANY) * {xp}")) \
+        and isinstance(ret[0].value, ast.BinOp)
+    ed = [s_ for s_ in ast.walk(setf.node) if isinstance(s_, ast.Assign) and norm(s_.targets[0]) == "self.expdK"]
+    oke = len(ed) == 1 and _sign_of_2pi_i(ed[0].value) == +1 and bool(
+        pmatch(ed[0].value, "self.iRvec.dot(self.dK)") or pmatch(ed[0].value, "self.iRvec @ self.dK") or pmatch(ed[0].value, "np.dot(self.iRvec, self.dK)"))
+    r3.check(okm and oke, "grid mode: X(R) · exp(+2πi dK·R)", apf, ret[0] if ret else apf.node,
+             "the K-shift phase is no longer exp(+2πi dK·R) multiplied into X(R)", stmt="expdK")
+    dkd = [s_ for s_ in ast.walk(setf.node) if isinstance(s_, ast.Assign) and norm(s_.targets[0]) == "self.dK"]
+    dkp = "dK"
+    r3.check(len(dkd) == 1 and norm(dkd[0].value) in (f"np.array({dkp})", f"np.asarray({dkp})", dkp) and bool(ed) and dkd[0].lineno < ed[0].lineno,
+             "the phase is built from the dK of this configuration", setf, dkd[0] if dkd else setf.node, "self.dK is not (re)assigned from the dK argument before the phase is built")
 
     # ---------------------------------------------------------------- R02.4
     r4 = ctx.rule("R02.4", "derivative factors and Hermitisation of the Hamiltonian", min_instances=3)
     dv = rvc.methods.get("derivative")
     rk = rvc.methods.get("R_to_k")
     r4.instance(dv.short)
-    td = norm(dv.node).replace(" ", "")
-    r4.check("return1j*XX_R.reshape(XX_R.shape+(1,))*self.cRvec_shifted.reshape(" in td, "∂/∂k ↦ multiplication by +i (R + τj − τi)", dv, dv.node,
+    dxp = dv.params[1]
+    rets = [s_ for s_ in stmts(dv.node) if isinstance(s_, ast.Return) and s_.value is not None]
+    okd = False
+    if len(rets) == 1:
+        sg, fs = product_factors(rets[0].value)
+        okd = imag_unit_sign(rets[0].value) == +1 and any(pmatch(f_, f"{dxp}.reshape(ANY)") and pmatch(f_, f"{dxp}.reshape(ANY)")[0][0] is f_ for f_ in fs) and \
+            any(pmatch(f_, "self.cRvec_shifted.reshape(ANY)") and pmatch(f_, "self.cRvec_shifted.reshape(ANY)")[0][0] is f_ for f_ in fs) and len(fs) == 3
+    r4.check(okd, "∂/∂k ↦ multiplication by +i (R + τj − τi)", dv, rets[0] if rets else dv.node,
              "the k-derivative is no longer multiplication of X(R) by +i·(R + τj − τi) (the sign must match exp(+ik·R))", stmt="derivative")
     r4.instance(rk.short)
-    tk = norm(rk.node).replace(" ", "")
-    r4.check("foriinrange(der):XX_R=self.derivative(XX_R)" in tk.replace("\n", "") and "returnself.fft_R_to_k(XX_R,hermitian=hermitian)" in tk,
-             "R_to_k applies the derivative `der` times, then one transform", rk, rk.node,
+    K = Frag(rk)
+    xr, derp, hp2 = rk.params[1:4]
+    okr = bool(K.find(f"for i in range({derp}):\n    {xr} = self.derivative({xr})")) and \
+        bool(K.find(f"return self.fft_R_to_k({xr}, hermitian={hp2})") or K.find(f"return self.fft_R_to_k({xr}, {hp2})"))
+    r4.check(okr, "R_to_k applies the derivative `der` times, then one transform", rk, rk.node,
              "R_to_k no longer applies `der` derivative factors before a single transform", stmt="R_to_k")
+    hdef = None
+    pa = rk.node.args
+    names_ = [x.arg for x in pa.args]
+    if hp2 in names_:
+        i_ = names_.index(hp2) - (len(pa.args) - len(pa.defaults))
+        hdef = const_of(pa.defaults[i_]) if i_ >= 0 else None
     dk = idx.cls(DKR, "Data_K_R")
     hh = dk.methods.get("HH_K")
     r4.instance(hh.short)
-    r4.check("self.rvec.R_to_k(self.Ham_R, hermitian=True)" in norm(hh.node), "HH_K is Hermitised", hh, hh.node,
-             "Data_K_R.HH_K is no longer transformed with hermitian=True", stmt="HH_K hermitian")
+    hc = [c for c in method_calls(hh.node, "R_to_k")]
+    r4.expect(len(hc) >= 1, "HH_K transform located", hh, hh.node, "Data_K_R.HH_K: R_to_k call not found")
+    r4.check(bool(hc) and all(const_of(kwarg(c, "hermitian", 2), hdef) is True for c in hc) and any(c.args and norm(c.args[0]) == "self.Ham_R" for c in hc),
+             "HH_K is the Hermitised transform of Ham_R", hh, hc[0] if hc else hh.node,
+             "Data_K_R.HH_K is no longer R_to_k(self.Ham_R) with hermitian=True", stmt="HH_K hermitian")
     for mname in ("E_K_corners_tetra", "E_K_corners_parallel"):
         m = dk.methods.get(mname)
+        if m is None:
+            raise AnalysisError(f"Data_K_R.{mname} vanished")
         cs = [c for c in method_calls(m.node, "R_to_k")]
-        r4.check(bool(cs) and all(any(k.arg == "hermitian" and norm(k.value) == "True" for k in c.keywords) for c in cs),
+        r4.check(bool(cs) and all(const_of(kwarg(c, "hermitian", 2), hdef) is True for c in cs),
                  f"{mname}: corner Hamiltonians are Hermitised like HH_K", m, cs[0] if cs else m.node,
                  f"{mname} transforms the corner Hamiltonian without hermitian=True (its sibling HH_K uses it)")
     xb = dk.methods.get("Xbar")
-    r4.check("hermitian=name in ['AA', 'SS', 'OO', 'rotAA']" in norm(xb.node), "Xbar Hermitises exactly the Hermitian operators", xb, xb.node,
-             "the list of matrices Hermitised in Xbar changed", stmt="Xbar hermitian list")
+    xc = [c for c in method_calls(xb.node, "_R_to_k_H")] or [c for c in method_calls(xb.node, "R_to_k")]
+    r4.expect(len(xc) == 1, "Xbar transform located", xb, xb.node, "Data_K_R.Xbar: the _R_to_k_H / R_to_k call was not found")
+    hv = kwarg(xc[0], "hermitian", 2) if xc else None
+    hset = None
+    if isinstance(hv, ast.Compare) and len(hv.ops) == 1 and isinstance(hv.ops[0], ast.In) and isinstance(hv.comparators[0], (ast.List, ast.Tuple, ast.Set)):
+        hset = sorted(const_of(e) for e in hv.comparators[0].elts)
+    r4.check(hset == ["AA", "OO", "SS", "rotAA"], "Xbar Hermitises exactly the Hermitian operators", xb, xc[0] if xc else xb.node,
+             f"the set of matrices Hermitised in Xbar is {hset}", stmt="Xbar hermitian list")
 
     # ---------------------------------------------------------------- R02.5
     r5 = ctx.rule("R02.5", "q→R wrappers agree in direction; forward transform ÷ N", min_instances=2)
     fnp = idx.function(FF, "fft_np")
     fw = idx.function(FF, "fft_W")
     r5.instance(fnp.short)
-    tn = norm(fnp.node).replace(" ", "").replace("\n", "")
-    np_ok = "ifinverse:returnnp.fft.ifftn(inp,axes=axes)else:returnnp.fft.fftn(inp,axes=axes)" in tn
+    invp = "inverse"
+    np_ok = bool(pmatch(fnp.node, f"if {invp}:\n    return np.fft.ifftn(ANY, axes=ANY)\nelse:\n    return np.fft.fftn(ANY, axes=ANY)")
+                 or pmatch(fnp.node, f"if not {invp}:\n    return np.fft.fftn(ANY, axes=ANY)\nelse:\n    return np.fft.ifftn(ANY, axes=ANY)")
+                 or pmatch(fnp.node, f"return np.fft.ifftn(ANY, axes=ANY) if {invp} else np.fft.fftn(ANY, axes=ANY)")
+                 or (pmatch(fnp.node, f"if {invp}:\n    return np.fft.ifftn(ANY, axes=ANY)") and pmatch(fnp.node, "return np.fft.fftn(ANY, axes=ANY)")))
     r5.instance(fw.short)
-    tw = norm(fw.node).replace(" ", "")
-    w_ok = "direction='FFTW_BACKWARD'ifinverseelse'FFTW_FORWARD'" in tw
-    r5.check(np_ok and w_ok, "both wrappers: inverse ⇒ backward (ifftn), otherwise forward (fftn)", fw, fw.node,
+    wp = [c for c in ast.walk(fw.node) if isinstance(c, ast.Call) and call_name(c) == "pyfftw.FFTW"]
+    dv_ = kwarg(wp[0], "direction") if len(wp) == 1 else None
+    w_ok = dv_ is not None and bool(pmatch(dv_, f"'FFTW_BACKWARD' if {invp} else 'FFTW_FORWARD'") or pmatch(dv_, f"'FFTW_FORWARD' if not {invp} else 'FFTW_BACKWARD'"))
+    r5.expect(len(wp) == 1, "pyfftw plan of fft_W located", fw, fw.node, "fft_W: pyfftw.FFTW(…) not found")
+    r5.check(np_ok and w_ok, "both wrappers: inverse ⇒ backward (ifftn), otherwise forward (fftn)", fw, wp[0] if wp else fw.node,
              f"fft_np and fft_W map `inverse` to different transform directions (numpy ok: {np_ok}, fftw ok: {w_ok}): real-space matrices "
              f"depend on the FFT library", stmt="direction")
     ex = idx.function(FF, "execute_fft")
-    te = norm(ex.node).replace(" ", "")
-    r5.check("returnfft_W(inp,axes,inverse=inverse,destroy=destroy)" in te and "returnfft_np(inp,axes,inverse=inverse)" in te,
-             "execute_fft forwards `inverse` unchanged to both libraries", ex, ex.node, "execute_fft does not pass `inverse` identically to both libraries",
-             stmt="execute_fft")
+    cw = [c for c in calls(ex.node, "fft_W") if call_name(c) == "fft_W"]
+    cn = [c for c in calls(ex.node, "fft_np") if call_name(c) == "fft_np"]
+    r5.expect(len(cw) == 1 and len(cn) == 1, "library dispatch located", ex, ex.node, "execute_fft: calls of fft_W / fft_np not found")
+    okx = len(cw) == 1 and len(cn) == 1 and all(kwarg(c, "inverse", 2) is not None and norm(kwarg(c, "inverse", 2)) == "inverse" for c in cw + cn) \
+        and all(norm(c.args[0]) == ex.params[0] and (kwarg(c, "axes", 1) is not None and norm(kwarg(c, "axes", 1)) == ex.params[1]) for c in cw + cn)
+    r5.check(okx, "execute_fft forwards input, axes and `inverse` unchanged to both libraries", ex, (cw + cn + [ex.node])[0],
+             "execute_fft does not pass input/axes/`inverse` identically to both libraries", stmt="execute_fft")
     q = rvc.methods.get("q_to_R")
-    tq = norm(q.node).replace(" ", "")
-    r5.check("execute_fft(AA_q_mp,axes=(0,1,2),fftlib=self.fftlib_q2R,destroy=False)/np.prod(self.mp_grid)" in tq and "AA_q_mp[k]=AA_q[i]" in tq,
-             "q→R: mesh placement by integer coordinates, forward transform divided by the number of mesh points", q, q.node,
-             "q_to_R is no longer (forward FFT)/N_mesh of the matrices placed at their mesh coordinates", stmt="q_to_R")
+    Q = Frag(q)
+    aq = q.params[1]
+    place = Q.find(f"for i, k in enumerate(self.kpt_mp_grid):\n    AA_q_mp[k] = {aq}[i]")
+    fcall = [c for c in calls(q.node, "execute_fft") if call_name(c) == "execute_fft"]
+    okq = bool(place) and len(fcall) == 1
+    if okq:
+        c = fcall[0]
+        par = fctx(q)[2].get(c)
+        okq = const_of(kwarg(c, "inverse", 2), False) is False and const_of(kwarg(c, "axes", 1)) == (0, 1, 2) and norm(c.args[0]) == place[0][1]["AA_q_mp"] \
+            and isinstance(par, ast.BinOp) and isinstance(par.op, ast.Div) and par.left is c and norm(par.right) in ("np.prod(self.mp_grid)", "self.mp_grid.prod()")
+    r5.check(okq, "q→R: mesh placement by integer coordinates, forward transform divided by the number of mesh points", q, fcall[0] if fcall else q.node,
+             "q_to_R is no longer (forward FFT over axes 0,1,2)/N_mesh of the matrices placed at their mesh coordinates", stmt="q_to_R")
 
 
 from ..selftest import V  # noqa: E402
@@ -250,6 +334,15 @@ SELFTEST = [
       "            _HH_K = self.rvec.R_to_k(_Ham_R, hermitian=False)\n            _Ecorners[:, iv, :] = np.linalg.eigvalsh(_HH_K)", "fire", "R02.4"),
     V("fftw wrapper direction swapped", FF, "direction='FFTW_BACKWARD' if inverse else 'FFTW_FORWARD')", "direction='FFTW_FORWARD' if inverse else 'FFTW_BACKWARD')",
       "fire", "R02.5"),
+    V("q→R uses the inverse transform", RV, "AA_q_mp = execute_fft(AA_q_mp, axes=(0, 1, 2), fftlib=self.fftlib_q2R, destroy=False) / np.prod(self.mp_grid)",
+      "AA_q_mp = execute_fft(AA_q_mp, axes=(0, 1, 2), fftlib=self.fftlib_q2R, destroy=False, inverse=True) / np.prod(self.mp_grid)", "fire", "R02.5"),
+    V("Hermitian axes of the box used for k-lists", FF, "            self.axes_hermitean = (1, 2)", "            self.axes_hermitean = (3, 4)", "fire", "R02.1"),
+    V("K-shift phase with the opposite sign", RV, "self.expdK = np.exp(2j * np.pi * self.iRvec.dot(self.dK))", "self.expdK = np.exp(-2j * np.pi * self.iRvec.dot(self.dK))", "fire", "R02.3"),
+    V("block of the previous R-vector placed", FF, "                AAA_K[tuple(irvec)] += AAA_R[ir]", "                AAA_K[tuple(irvec)] += AAA_R[ir - 1]", "fire", "R02.2"),
+    V("neutral: box array renamed", FF, "AAA_K", "box_K", "silent", replace_all=True),
+    V("neutral: exponent sign written as -(-2j)", FF, "return np.exp(2j * np.pi * (self.k_list @ self.iRvec.T))", "return np.exp(np.pi * 2j * (self.k_list @ self.iRvec.T))", "silent"),
+    V("neutral: hermitisation as (A + A†)/2", FF, "AAA_K = 0.5 * (AAA_K + AAA_K.swapaxes(*self.axes_hermitean).conj())", "AAA_K = (AAA_K + AAA_K.swapaxes(*self.axes_hermitean).conj()) / 2", "silent"),
+    V("neutral: HH_K relies on the hermitian=True default", DKR, "self.rvec.R_to_k(self.Ham_R, hermitian=True)", "self.rvec.R_to_k(self.Ham_R)", "silent"),
     V("neutral: mode test through a local", RV, "        if self.fft_R_to_k.lib == \"slow_path\":\n            return XX_R",
       "        if self.fft_R_to_k.lib in (\"slow_path\",):\n            return XX_R", "silent"),
 ]
